@@ -55,7 +55,7 @@ def evaluate(prop, sc, want_trace=False):
             if v.prop == 'C01':
                 V.append(Violation('C02', 'C02.semantics', v.seq, v.detail, **v.info))
     elif prop == 'C03':
-        V += an.check_early_completion() + an.check_bounds() + an.check_stuck()
+        V += an.check_early_completion() + an.check_bounds() + an.check_handoff() + an.check_stuck()
         V += an.check_spurious_exceptions('C03')
     elif prop == 'C04':
         V += an.refcount_scan(want_c04=True, want_c05=False)
